@@ -55,6 +55,25 @@ def run(ctx):
                               ("a value computed by the caller before the registry walk" if early else "obtained before all three registry visits finished (bb%s)" % calls_),
                               "units obtained at bb%s, after visits bb%s" % (calls_, [v.bb for v in visits]))
         ctx.floor("R20.6", "readout entries carrying the units map", n_units, 1)
+        # ... and when the units come from a callback, the callback itself reads the map: its caller must not have read it beforehand and
+        # merely wrapped the result
+        unit_params = [i for i in range(1, b.arg_count + 1) if "FnOnce" in b.locals[i]["ty"] or "impl Fn" in b.locals[i]["ty"]]
+        if unit_params:
+            for cs in [x for bb2 in F.all_bodies(MR) for x in bb2.calls() if x.name == "readout" and x.is_trait_method("MetricsRsVersion") and "::tests::" not in bb2.path]:
+                cb_ = cs.body
+                for up in unit_params:
+                    if up - 1 >= len(cs.args):
+                        continue
+                    cl = closure_for_operand(F, cb_, cs.args[up - 1])
+                    reads_in = [c for c in (cl.calls() if cl is not None else []) if c.name in ("read", "lock", "try_read")]
+                    cdom = cb_.dominators()
+                    early = [c for c in cb_.calls() if c.name in ("read", "lock", "try_read") and "HashMap<alloc::string::String, metrique_writer_core::unit::Unit" in (c.self_ty or c.def_ + str(c.callee.get("args", "")))
+                             and dominates(cb_, c.bb, cs.bb, cdom)]
+                    early2 = [c for c in cb_.calls() if c.name in ("read", "lock", "try_read") and dominates(cb_, c.bb, cs.bb, cdom) and c.bb != cs.bb]
+                    ctx.check(cl is not None and bool(reads_in) and not early2, "R20.6", fnkey(cb_) + "#units-read-inside-the-callback", loc(cb_, cs.bb),
+                              "the units callback handed to readout does not read the described-units map itself%s: the snapshot predates the registry walk, so a "
+                              "metric described and registered during the walk is written without its unit" % (" (the caller reads a lock before the call and wraps the result)" if early2 else ""),
+                              "the callback takes the lock and clones the map when it is called (after the walk)")
         # ---- counters
         cb = vis.get("visit_counters")
         if cb is not None:
